@@ -196,7 +196,7 @@ def _exec_one(plan, fail, missing, kill_at, root, res, sigctx, twin=False):
         ji.dump(inp2)
 
         def hook(argv, rec):
-            if twin_info or fresh_dirs or os.path.basename(argv[0]) != "prog0":
+            if twin_info or fresh_dirs or twin == "rename" or os.path.basename(argv[0]) != "prog0":
                 return
             run_twin()
 
@@ -209,7 +209,7 @@ def _exec_one(plan, fail, missing, kill_at, root, res, sigctx, twin=False):
 
             runner_mod.run = fe2
             try:
-                p2 = sp2(["_molli_run", inp2, "-o", os.path.join(root, "out2"), "-s", scratch], cwd=work, capture_output=True, encoding="utf8")
+                p2 = sp2(["_molli_run", inp2, "-o", outdir if twin == "rename" else os.path.join(root, "out2"), "-s", scratch], cwd=work, capture_output=True, encoding="utf8")
             finally:
                 runner_mod.run = saved_run
             twin_info["rc"] = p2.returncode
@@ -217,6 +217,13 @@ def _exec_one(plan, fail, missing, kill_at, root, res, sigctx, twin=False):
             twin_info["stderr"] = p2.stderr[-300:]
 
         fe.hook = hook
+    if twin == "rename":
+        # the twin (same job id, SAME output directory, other input name) is scheduled exactly when this runner is about to
+        # move a file into place - if it ever does (a runner that writes its report directly never reaches this point)
+        def rn_hook(what, src, dst):
+            if not twin_info:
+                run_twin()
+        sp.fs_hook = rn_hook
     runner_path = None
     if fresh_dirs:
         # ... and the second runner is scheduled exactly when the first one is about to create a directory: between
@@ -274,6 +281,20 @@ def _exec_one(plan, fail, missing, kill_at, root, res, sigctx, twin=False):
         if proc.returncode != 0 or twin_info.get("rc") != 0:
             return viol("exit-status", f"two runners that had to create the scratch / output directories at the same time: exit {proc.returncode} and "
                                        f"{twin_info.get('rc')} although every command succeeds (stderr {proc.stderr[-200:]!r} / {twin_info.get('stderr')!r})")
+    if twin == "rename":
+        if twin_info:
+            res.stats["probe:second_runner_scheduled_at_a_rename"] += 1
+            t_out = os.path.join(outdir, "twin.out")
+            if twin_info.get("rc") != 0 or proc.returncode != 0 or not os.path.isfile(t_out) or not os.path.isfile(os.path.join(outdir, "thejob.out")):
+                return viol("output-file", f"two runners of jobs with the same job id writing their reports into one output directory: exit {proc.returncode} and "
+                                           f"{twin_info.get('rc')}, directory holds {sorted(os.listdir(outdir)) if os.path.isdir(outdir) else None} "
+                                           f"(stderr {proc.stderr[-200:]!r} / {twin_info.get('stderr')!r})")
+            try:
+                if JobOutput.load(t_out).input_hash != ji.hash or JobOutput.load(os.path.join(outdir, "thejob.out")).input_hash != ji.hash:
+                    return viol("input-hash", "a report written next to another runner's carries the wrong input hash")
+            except Exception as e_:  # noqa: BLE001
+                return viol("output-file", f"a report written next to another runner's is unreadable: {e_!r}")
+        twin = False      # from here on: judged like a plain run
     if twin:
         res.stats["probe:two_jobs_same_jid_overlap"] += 1
         mine = sorted({r_["cwd"] for r_ in fe.log})
@@ -598,12 +619,13 @@ def run_plan(plan, trace=False):
             cases.append((None, frozenset(), i))
         cases.append((None, frozenset(), "twin"))
         cases.append((None, frozenset(), "twin_fs"))
+        cases.append((None, frozenset(), "twin_rename"))
         if only is not None:
             cases = [(tuple(only["fail"]) if only["fail"] else None, frozenset(only["missing"]), only["kill_at"])]
         for (fail, miss, kill_at) in cases:
             if fail is None and kill_at is None:
                 res.stats["probe:all_commands_succeed"] += 1
-            elif kill_at in ("twin", "twin_fs"):
+            elif kill_at in ("twin", "twin_fs", "twin_rename"):
                 pass
             elif kill_at is not None:
                 res.stats["probe:runner_killed_mid_command"] += 1
@@ -620,13 +642,15 @@ def run_plan(plan, trace=False):
                     res.stats["probe:all_return_files_missing"] += 1
             fcls = "none" if fail is None else (("first" if fail[0] == 0 else "later") + "/" + ("signal" if fail[1] == "sig" else "nostart" if fail[1] == "nostart" else "rc"))
             if kill_at is not None:
-                fcls = "runner-killed" if kill_at not in ("twin", "twin_fs") else kill_at
+                fcls = "runner-killed" if kill_at not in ("twin", "twin_fs", "twin_rename") else kill_at
             sigctx = f"fail={fcls}|missing={'none' if not miss else ('all' if len(miss) == len(rets) else 'some')}|returns={'none' if not rets else 'some'}"
             nv = len(res.violations)
             if kill_at == "twin":
                 _exec_one(plan, None, miss, None, root, res, "overlap=same-jid-twin", twin=True)
             elif kill_at == "twin_fs":
                 _exec_one(plan, None, miss, None, root, res, "overlap=directory-creation", twin="fs")
+            elif kill_at == "twin_rename":
+                _exec_one(plan, None, miss, None, root, res, "overlap=moving-the-report-into-place", twin="rename")
             else:
                 _exec_one(plan, fail, miss, kill_at, root, res, sigctx)
             for v in res.violations[nv:]:
